@@ -342,7 +342,7 @@ def map_blocks(
 
     # Create synthetic meta if compute_meta failed but we have dtype
     if meta is None and dtype is not None:
-        meta = np.empty((0,) * len(out_ind), dtype=dtype)
+        meta = np.zeros((0,) * len(out_ind), dtype=dtype)
 
     if drop_axis:
         ndim_out = len(out_ind)
@@ -603,7 +603,7 @@ class MapBlocksOutput(ArrayExpr):
         meta = self.operand("_meta_provided")
         if meta is not None:
             return meta
-        return np.empty((0,) * len(self.chunks), dtype=self.dtype)
+        return np.zeros((0,) * len(self.chunks), dtype=self.dtype)
 
     @cached_property
     def dtype(self):
